@@ -26,7 +26,23 @@ FRAGS = {k: kani.FRAGMENTS[k] for k in ('ceval.rs', 'astutil.rs', 'uiexpr.rs')}
 
 
 def run(res, args):
-    kani.check_property(res, 'c03', FRAGS, SPECS)
+    import threading
+    from . import c03_const
+    err = []
+
+    def const_part():
+        try:
+            c03_const.run(res)
+        except Exception as e:
+            err.append(e)
+    th = threading.Thread(target=const_part)
+    th.start()
+    try:
+        kani.check_property(res, 'c03', FRAGS, SPECS)
+    finally:
+        th.join()
+    if err:
+        raise err[0]
     from . import mir_obligations as O
     fns, consts = O.load()
 
